@@ -16,7 +16,7 @@ import json
 from concurrent.futures import ThreadPoolExecutor
 
 from .common import *
-from .histlib import HistGen, run_scripts, block_join_history, double_update_history
+from .histlib import HistGen, run_scripts, block_join_history, double_update_history, failed_apply_history
 from .treelib import *
 
 
@@ -114,12 +114,23 @@ def main(run, args):
         g.ops.append({"op": "observe", "who": w, "observe": "all"})
         g.round_explicit(rng.choice(g.in_group), n_adds=0, remove_names=[])
         scripts.append(g.script())
+    # directed: the first storage call of applying an own commit fails.  The member is still the member of
+    # the old epoch (its keys must fit the OLD tree), retries or clears and follows somebody else's commit,
+    # then commits itself
+    for i in range(6 if quick else 36):
+        g, _ = failed_apply_history(rng, i, f"c09-failapply-{i}", quick)
+        scripts.append(g.script())
     recs = run_scripts(scripts, timeout=2400)
     failing = []
     cases = []
     stats = {"receivers": 0, "committers": 0, "joiners": 0, "own_updates": 0, "probes": 0, "keys_dropped": 0, "max_distance": 0, "unmerged_receivers": 0}
     for sc, rs in zip(scripts, recs):
-        bad = [r for r in rs if r.get("ok") is False or r.get("crash")]
+        meant = [r for r in rs if "i" in r and sc["ops"][r["i"]].get("may_fail")]
+        if any(r.get("ok") for r in meant):
+            stats["fault_not_reached"] = stats.get("fault_not_reached", 0) + 1
+            continue
+        stats["failed_applies"] = stats.get("failed_applies", 0) + len(meant)
+        bad = [r for r in rs if (r.get("ok") is False and not sc["ops"][r["i"]].get("may_fail")) or r.get("crash")]
         if bad:
             failing.append({"what": "operation failed in a valid history", "script": sc["name"], "record": bad[0], "ops": sc["ops"][max(0, bad[0].get("i", 0) - 4):bad[0].get("i", 0) + 1]})
             continue
@@ -206,7 +217,7 @@ def main(run, args):
                     else:
                         mism.append(dict(c[1], what="private-key model fails on this commit", code=v))
     run.obligation("correspondence: key positions of every member after every commit = model; every stored key opens what is sealed to its node", not mism and not failing and coq_cases > 0)
-    if stats["receivers"] < 50 or stats["joiners"] < 10 or stats["own_updates"] < 3 or stats["keys_dropped"] < 3:
+    if stats["receivers"] < 50 or stats["joiners"] < 10 or stats["own_updates"] < 3 or stats["keys_dropped"] < 3 or stats.get("failed_applies", 0) < 3:
         broken.append(("generator", f"degenerate histories: {stats}"))
     run.cov.update({
         "evaluations": len(cases) + stats["probes"],
